@@ -304,6 +304,10 @@ def schedule(placed):
     return ev + TAIL
 
 
+NEEDS_OUTPUT = {'k': 'ns', 'req': True, 'vt': None, 'vld': None, 'dyn': True, 'pop': True, 'dflt': ['none'],
+                'ports': [['needed', {'k': 'leaf', 'req': True, 'vt': None, 'vld': None, 'dflt': ['none']}]]}
+
+
 def generate(tier, rng, around=None):
     cases = []
     if tier == 'widen':
@@ -344,6 +348,12 @@ def generate(tier, rng, around=None):
             for kind in c16_run.TOLERATED:
                 add(name, {}, [(1, ['rpc', 'pause', 'p'])] if k % 2 else [], bfail=[[k, kind]])
         add(name, {}, [(2, ['rpc', 'kill', 'k'])], bfail=[[0, 'closed'], [1, 'timeout'], [2, 'channel'], [3, 'closed']])
+        # a required output that is never emitted: the process ends FINISHED-unsuccessful through the substitute state; it must be
+        # closed and unsubscribed like any other terminated process, later messages do not reach it
+        add(name, {'ospec': NEEDS_OUTPUT}, [])
+        for b in (0, 2, 9):
+            for m in CORE[:4]:
+                add(name, {'ospec': NEEDS_OUTPUT}, [(b, m)])
     return {'cases': cases, 'exhaustive': True,
             'scope': '7 programs x every message kind (29) at every one of the first 5 (quick) / 7 boundaries; 9 listener / hook-fault variants x core '
                      'messages; sampled pairs and triples of messages; each single announcement 0..4 failing with each tolerated kind'}
